@@ -232,4 +232,423 @@ theorem mem_symL (n : Nat) (az : Nat → Nat → Bool) (U : List Pair) (i : Nat)
     simp only [Prod.mk.injEq] at heq
     omega
 
+/-! ### the invariant: after `i` stages the sets are the fill closure restricted to rows / columns `< i` -/
+
+structure SymInv (n : Nat) (az : Nat → Nat → Bool) (i : Nat) (L U : List Pair) : Prop where
+  U_iff : ∀ r c, (r, c) ∈ U ↔ r < i ∧ r ≤ c ∧ c < n ∧
+    (az r c = false ∨ c = r ∨ ∃ j, j < r ∧ (r, j) ∈ L ∧ (j, c) ∈ U)
+  L_iff : ∀ r c, (r, c) ∈ L ↔ c < i ∧ c ≤ r ∧ r < n ∧
+    (az r c = false ∨ r = c ∨ ∃ j, j < c ∧ (r, j) ∈ L ∧ (j, c) ∈ U)
+
+theorem symInv_init (n : Nat) (az : Nat → Nat → Bool) : SymInv n az 0 [] [] :=
+  ⟨by intro r c; simp, by intro r c; simp⟩
+
+theorem symInv_step (n : Nat) (az : Nat → Nat → Bool) (i : Nat) (L U : List Pair)
+    (h : SymInv n az i L U) :
+    SymInv n az (i + 1) (symStep n az (L, U) i).1 (symStep n az (L, U) i).2 := by
+  show SymInv n az (i + 1) (symL n az (symU n az L i U) i L) (symU n az L i U)
+  have hU' := mem_symU n az L i U
+  generalize symU n az L i U = U' at hU'
+  have hL' := mem_symL n az U' i L
+  generalize symL n az U' i L = L' at hL'
+  have hUrow : ∀ r c, (r, c) ∈ U → r < i := fun r c hm => ((h.U_iff r c).mp hm).1
+  have hLcol : ∀ r c, (r, c) ∈ L → c < i := fun r c hm => ((h.L_iff r c).mp hm).1
+  have hUsub : ∀ r c, (r, c) ∈ U → (r, c) ∈ U' := fun r c hm => (hU' r c).mpr (Or.inl hm)
+  have hLsub : ∀ r c, (r, c) ∈ L → (r, c) ∈ L' := fun r c hm => (hL' r c).mpr (Or.inl hm)
+  have hUold : ∀ j c, j < i → (j, c) ∈ U' → (j, c) ∈ U := by
+    intro j c hj hm
+    rcases (hU' j c).mp hm with h1 | h1
+    · exact h1
+    · omega
+  have hLold : ∀ r j, j < i → (r, j) ∈ L' → (r, j) ∈ L := by
+    intro r j hj hm
+    rcases (hL' r j).mp hm with h1 | h1
+    · exact h1
+    · omega
+  constructor
+  · intro r c
+    rw [hU' r c]
+    constructor
+    · rintro (hm | ⟨rfl, h1, h2, h3⟩)
+      · obtain ⟨g1, g2, g3, g4⟩ := (h.U_iff r c).mp hm
+        refine ⟨by omega, g2, g3, ?_⟩
+        rcases g4 with g | g | ⟨j, hj, g5, g6⟩
+        · exact Or.inl g
+        · exact Or.inr (Or.inl g)
+        · exact Or.inr (Or.inr ⟨j, hj, hLsub _ _ g5, hUsub _ _ g6⟩)
+      · refine ⟨by omega, h1, h2, ?_⟩
+        rcases h3 with g | g | ⟨j, hj, g5, g6⟩
+        · exact Or.inl g
+        · exact Or.inr (Or.inl g)
+        · exact Or.inr (Or.inr ⟨j, hj, hLsub _ _ g5, hUsub _ _ g6⟩)
+    · rintro ⟨g1, g2, g3, g4⟩
+      by_cases hri : r = i
+      · subst hri
+        right
+        refine ⟨rfl, g2, g3, ?_⟩
+        rcases g4 with g | g | ⟨j, hj, g5, g6⟩
+        · exact Or.inl g
+        · exact Or.inr (Or.inl g)
+        · exact Or.inr (Or.inr ⟨j, hj, hLold _ _ hj g5, hUold _ _ hj g6⟩)
+      · left
+        refine (h.U_iff r c).mpr ⟨by omega, g2, g3, ?_⟩
+        rcases g4 with g | g | ⟨j, hj, g5, g6⟩
+        · exact Or.inl g
+        · exact Or.inr (Or.inl g)
+        · exact Or.inr (Or.inr ⟨j, hj, hLold _ _ (by omega) g5, hUold _ _ (by omega) g6⟩)
+  · intro r c
+    rw [hL' r c]
+    constructor
+    · rintro (hm | ⟨rfl, h1, h2, h3⟩)
+      · obtain ⟨g1, g2, g3, g4⟩ := (h.L_iff r c).mp hm
+        refine ⟨by omega, g2, g3, ?_⟩
+        rcases g4 with g | g | ⟨j, hj, g5, g6⟩
+        · exact Or.inl g
+        · exact Or.inr (Or.inl g)
+        · exact Or.inr (Or.inr ⟨j, hj, hLsub _ _ g5, hUsub _ _ g6⟩)
+      · refine ⟨by omega, h1, h2, ?_⟩
+        rcases h3 with g | g | ⟨j, hj, g5, g6⟩
+        · exact Or.inl g
+        · exact Or.inr (Or.inl g)
+        · exact Or.inr (Or.inr ⟨j, hj, hLsub _ _ g5, g6⟩)
+    · rintro ⟨g1, g2, g3, g4⟩
+      by_cases hci : c = i
+      · subst hci
+        right
+        refine ⟨rfl, g2, g3, ?_⟩
+        rcases g4 with g | g | ⟨j, hj, g5, g6⟩
+        · exact Or.inl g
+        · exact Or.inr (Or.inl g)
+        · exact Or.inr (Or.inr ⟨j, hj, hLold _ _ hj g5, g6⟩)
+      · left
+        refine (h.L_iff r c).mpr ⟨by omega, g2, g3, ?_⟩
+        rcases g4 with g | g | ⟨j, hj, g5, g6⟩
+        · exact Or.inl g
+        · exact Or.inr (Or.inl g)
+        · exact Or.inr (Or.inr ⟨j, hj, hLold _ _ (by omega) g5, hUold _ _ (by omega) g6⟩)
+
+theorem symInv_foldl (n : Nat) (az : Nat → Nat → Bool) (m : Nat) :
+    SymInv n az m ((List.range m).foldl (symStep n az) ([], [])).1
+      ((List.range m).foldl (symStep n az) ([], [])).2 := by
+  induction m with
+  | zero => exact symInv_init n az
+  | succ m ih =>
+    rw [List.range_succ, List.foldl_append]
+    simp only [List.foldl_cons, List.foldl_nil]
+    exact symInv_step n az m _ _ ih
+
+/-- `GetLUMatrices` computes exactly the fill closure: membership characterisation -/
+theorem doolittleSymbolic_inv (n : Nat) (az : Nat → Nat → Bool) :
+    SymInv n az n (doolittleSymbolic n az).1 (doolittleSymbolic n az).2 := by
+  rw [doolittleSymbolic_eq]
+  exact symInv_foldl n az n
+
+/-! ### from the invariant to the hypotheses of the numeric theorems -/
+
+/-- (H2) on `Bool` matrices: `Closed`, minimality and triangular shapes -/
+structure FillClosure (n : Nat) (Ab Lb Ub : Nat → Nat → Bool) : Prop where
+  closed : Closed n Ab Lb Ub
+  diagL : ∀ i, i < n → Lb i i = true
+  lowL : ∀ r c, r < n → c < n → Lb r c = true → c ≤ r
+  uppU : ∀ r c, r < n → c < n → Ub r c = true → r ≤ c
+  minU : ∀ i k, i < k → k < n → Ub i k = true →
+    Ab i k = true ∨ ∃ j, j < i ∧ Lb i j = true ∧ Ub j k = true
+  minL : ∀ i k, i < k → k < n → Lb k i = true →
+    Ab k i = true ∨ ∃ j, j < i ∧ Lb k j = true ∧ Ub j i = true
+
+theorem fillClosure_of_symInv {n : Nat} {az : Nat → Nat → Bool} {L U : List Pair}
+    (h : SymInv n az n L U) (Ab Lb Ub : Nat → Nat → Bool)
+    (hA : ∀ r c, r < n → c < n → (Ab r c = true ↔ az r c = false))
+    (hLb : ∀ r c, r < n → c < n → (Lb r c = true ↔ (r, c) ∈ L))
+    (hUb : ∀ r c, r < n → c < n → (Ub r c = true ↔ (r, c) ∈ U)) :
+    FillClosure n Ab Lb Ub where
+  closed :=
+    { diagU := fun i hi => (hUb i i hi hi).mpr ((h.U_iff i i).mpr ⟨hi, le_refl i, hi, Or.inr (Or.inl rfl)⟩)
+      supU := fun r c hrc hc ha => (hUb r c (by omega) hc).mpr
+        ((h.U_iff r c).mpr ⟨by omega, hrc, hc, Or.inl ((hA r c (by omega) hc).mp ha)⟩)
+      supL := fun r c hcr hr ha => (hLb r c hr (by omega)).mpr
+        ((h.L_iff r c).mpr ⟨by omega, by omega, hr, Or.inl ((hA r c hr (by omega)).mp ha)⟩)
+      fillU := fun i j k hj hik hk h1 h2 => (hUb i k (by omega) hk).mpr
+        ((h.U_iff i k).mpr ⟨by omega, hik, hk, Or.inr (Or.inr ⟨j, hj,
+          (hLb i j (by omega) (by omega)).mp h1, (hUb j k (by omega) hk).mp h2⟩)⟩)
+      fillL := fun i j k hj hik hk h1 h2 => (hLb k i hk (by omega)).mpr
+        ((h.L_iff k i).mpr ⟨by omega, by omega, hk, Or.inr (Or.inr ⟨j, hj,
+          (hLb k j hk (by omega)).mp h1, (hUb j i (by omega) (by omega)).mp h2⟩)⟩) }
+  diagL := fun i hi => (hLb i i hi hi).mpr ((h.L_iff i i).mpr ⟨hi, le_refl i, hi, Or.inr (Or.inl rfl)⟩)
+  lowL := fun r c hr hc hm => ((h.L_iff r c).mp ((hLb r c hr hc).mp hm)).2.1
+  uppU := fun r c hr hc hm => ((h.U_iff r c).mp ((hUb r c hr hc).mp hm)).2.1
+  minU := by
+    intro i k hik hk hm
+    obtain ⟨_, _, _, g⟩ := (h.U_iff i k).mp ((hUb i k (by omega) hk).mp hm)
+    rcases g with g | g | ⟨j, hj, g1, g2⟩
+    · exact Or.inl ((hA i k (by omega) hk).mpr g)
+    · omega
+    · exact Or.inr ⟨j, hj, (hLb i j (by omega) (by omega)).mpr g1, (hUb j k (by omega) hk).mpr g2⟩
+  minL := by
+    intro i k hik hk hm
+    obtain ⟨_, _, _, g⟩ := (h.L_iff k i).mp ((hLb k i hk (by omega)).mp hm)
+    rcases g with g | g | ⟨j, hj, g1, g2⟩
+    · exact Or.inl ((hA k i hk (by omega)).mpr g)
+    · omega
+    · exact Or.inr ⟨j, hj, (hLb k j hk (by omega)).mpr g1, (hUb j i (by omega) (by omega)).mpr g2⟩
+
+/-- `doolittleSymbolic` returns the fill closure, for every input pattern `az` (`az r c = true`
+    means "(r,c) is a structural zero of A") -/
+theorem doolittleSymbolic_fillClosure (n : Nat) (az : Nat → Nat → Bool) :
+    FillClosure n (fun r c => !az r c) (memB (doolittleSymbolic n az).1)
+      (memB (doolittleSymbolic n az).2) :=
+  fillClosure_of_symInv (doolittleSymbolic_inv n az) _ _ _
+    (fun r c _ _ => by simp) (fun r c _ _ => memB_iff _ r c) (fun r c _ _ => memB_iff _ r c)
+
+/-- (H1)+(H2) for patterns whose presence predicates are the sets computed by `doolittleSymbolic`
+    from `A`'s pattern (as `LinAlg.build` constructs them) -/
+theorem LUSetup_of_symbolic (n : Nat) (A Lp Up : Pattern) (gL : GoodPattern n Lp)
+    (gU : GoodPattern n Up)
+    (hL : ∀ r c, r < n → c < n →
+      (Lp.zero? r c = false ↔ (r, c) ∈ (doolittleSymbolic n (fun r c => A.zero? r c)).1))
+    (hU : ∀ r c, r < n → c < n →
+      (Up.zero? r c = false ↔ (r, c) ∈ (doolittleSymbolic n (fun r c => A.zero? r c)).2)) :
+    LUSetup n A Lp Up := by
+  have fc := fillClosure_of_symInv (doolittleSymbolic_inv n (fun r c => A.zero? r c))
+    (pres A) (pres Lp) (pres Up) (fun r c _ _ => pres_true A r c)
+    (fun r c hr hc => (pres_true Lp r c).trans (hL r c hr hc))
+    (fun r c hr hc => (pres_true Up r c).trans (hU r c hr hc))
+  exact
+    { gL := gL, gU := gU, closed := fc.closed
+      diagL := fun i hi => (pres_true _ _ _).mp (fc.diagL i hi)
+      lowL := fun r c hr hc hp => fc.lowL r c hr hc ((pres_true _ _ _).mpr hp)
+      uppU := fun r c hr hc hp => fc.uppU r c hr hc ((pres_true _ _ _).mpr hp)
+      minU := by
+        intro i k hik hk hp
+        rcases fc.minU i k hik hk ((pres_true _ _ _).mpr hp) with g | ⟨j, hj, g1, g2⟩
+        · exact Or.inl ((pres_true _ _ _).mp g)
+        · exact Or.inr ⟨j, hj, (pres_true _ _ _).mp g1, (pres_true _ _ _).mp g2⟩
+      minL := by
+        intro i k hik hk hp
+        rcases fc.minL i k hik hk ((pres_true _ _ _).mpr hp) with g | ⟨j, hj, g1, g2⟩
+        · exact Or.inl ((pres_true _ _ _).mp g)
+        · exact Or.inr ⟨j, hj, (pres_true _ _ _).mp g1, (pres_true _ _ _).mp g2⟩ }
+
+/-! ### `doolittleInPlaceSymbolic` -/
+
+def symIPU (n : Nat) (az : Nat → Nat → Bool) (i : Nat) (S0 : List Pair) : List Pair :=
+  (rangeFrom i n).foldl (fun S k =>
+    if !az i k || k == i then setInsert (i, k) S
+    else if (List.range i).any (fun j => setMem (i, j) S && setMem (j, k) S) then setInsert (i, k) S
+    else S) S0
+
+def symIPL (n : Nat) (az : Nat → Nat → Bool) (i : Nat) (S0 : List Pair) : List Pair :=
+  (rangeFrom i n).foldl (fun S k =>
+    if !az k i || k == i then setInsert (k, i) S
+    else if (List.range i).any (fun j => setMem (k, j) S && setMem (j, i) S) then setInsert (k, i) S
+    else S) S0
+
+theorem doolittleInPlaceSymbolic_eq (n : Nat) (az : Nat → Nat → Bool) :
+    doolittleInPlaceSymbolic n az
+      = (List.range n).foldl (fun S i => symIPL n az i (symIPU n az i S)) [] := rfl
+
+theorem mem_symIPU (n : Nat) (az : Nat → Nat → Bool) (i : Nat) (S0 : List Pair) (r c : Nat) :
+    (r, c) ∈ symIPU n az i S0 ↔ (r, c) ∈ S0 ∨ (r = i ∧ i ≤ c ∧ c < n ∧
+      (az i c = false ∨ c = i ∨ ∃ j, j < i ∧ (i, j) ∈ S0 ∧ (j, c) ∈ S0)) := by
+  have e : symIPU n az i S0 = (rangeFrom i n).foldl (fun S k =>
+      if (!az i k || k == i || (List.range i).any (fun j => setMem (i, j) S && setMem (j, k) S))
+      then setInsert ((fun k => (i, k)) k) S else S) S0 := by
+    unfold symIPU
+    congr 1
+    funext S k
+    rw [ite_or]
+  rw [e, foldl_cond_insert (rangeFrom i n) (fun k => (i, k))
+    (fun S k => !az i k || k == i || (List.range i).any (fun j => setMem (i, j) S && setMem (j, k) S))]
+  · constructor
+    · rintro (h | ⟨k, hk, hc, hx⟩)
+      · exact Or.inl h
+      · right
+        rw [mem_rangeFrom] at hk
+        simp only [Prod.mk.injEq] at hx
+        obtain ⟨rfl, rfl⟩ := hx
+        refine ⟨rfl, hk.1, hk.2, ?_⟩
+        simp only [Bool.or_eq_true, Bool.not_eq_true', beq_iff_eq, List.any_eq_true,
+          List.mem_range, Bool.and_eq_true, setMem_iff] at hc
+        rcases hc with (h | h) | ⟨j, hj, h1, h2⟩
+        · exact Or.inl h
+        · exact Or.inr (Or.inl h)
+        · exact Or.inr (Or.inr ⟨j, hj, h1, h2⟩)
+    · rintro (h | ⟨rfl, h1, h2, h3⟩)
+      · exact Or.inl h
+      · right
+        refine ⟨c, (mem_rangeFrom _ _ _).mpr ⟨h1, h2⟩, ?_, rfl⟩
+        simp only [Bool.or_eq_true, Bool.not_eq_true', beq_iff_eq, List.any_eq_true,
+          List.mem_range, Bool.and_eq_true, setMem_iff]
+        rcases h3 with h | h | ⟨j, hj, h4, h5⟩
+        · exact Or.inl (Or.inl h)
+        · exact Or.inl (Or.inr h)
+        · exact Or.inr ⟨j, hj, h4, h5⟩
+  · intro S k _ hS
+    congr 1
+    apply any_congr'
+    intro j hj
+    have hj' := List.mem_range.mp hj
+    congr 1
+    · apply setMem_congr
+      apply hS
+      intro k' hk' heq
+      rw [mem_rangeFrom] at hk'
+      simp only [Prod.mk.injEq] at heq
+      omega
+    · apply setMem_congr
+      apply hS
+      intro k' _ heq
+      simp only [Prod.mk.injEq] at heq
+      omega
+
+theorem mem_symIPL (n : Nat) (az : Nat → Nat → Bool) (i : Nat) (S0 : List Pair) (r c : Nat) :
+    (r, c) ∈ symIPL n az i S0 ↔ (r, c) ∈ S0 ∨ (c = i ∧ i ≤ r ∧ r < n ∧
+      (az r i = false ∨ r = i ∨ ∃ j, j < i ∧ (r, j) ∈ S0 ∧ (j, i) ∈ S0)) := by
+  have e : symIPL n az i S0 = (rangeFrom i n).foldl (fun S k =>
+      if (!az k i || k == i || (List.range i).any (fun j => setMem (k, j) S && setMem (j, i) S))
+      then setInsert ((fun k => (k, i)) k) S else S) S0 := by
+    unfold symIPL
+    congr 1
+    funext S k
+    rw [ite_or]
+  rw [e, foldl_cond_insert (rangeFrom i n) (fun k => (k, i))
+    (fun S k => !az k i || k == i || (List.range i).any (fun j => setMem (k, j) S && setMem (j, i) S))]
+  · constructor
+    · rintro (h | ⟨k, hk, hc, hx⟩)
+      · exact Or.inl h
+      · right
+        rw [mem_rangeFrom] at hk
+        simp only [Prod.mk.injEq] at hx
+        obtain ⟨rfl, rfl⟩ := hx
+        refine ⟨rfl, hk.1, hk.2, ?_⟩
+        simp only [Bool.or_eq_true, Bool.not_eq_true', beq_iff_eq, List.any_eq_true,
+          List.mem_range, Bool.and_eq_true, setMem_iff] at hc
+        rcases hc with (h | h) | ⟨j, hj, h1, h2⟩
+        · exact Or.inl h
+        · exact Or.inr (Or.inl h)
+        · exact Or.inr (Or.inr ⟨j, hj, h1, h2⟩)
+    · rintro (h | ⟨rfl, h1, h2, h3⟩)
+      · exact Or.inl h
+      · right
+        refine ⟨r, (mem_rangeFrom _ _ _).mpr ⟨h1, h2⟩, ?_, rfl⟩
+        simp only [Bool.or_eq_true, Bool.not_eq_true', beq_iff_eq, List.any_eq_true,
+          List.mem_range, Bool.and_eq_true, setMem_iff]
+        rcases h3 with h | h | ⟨j, hj, h4, h5⟩
+        · exact Or.inl (Or.inl h)
+        · exact Or.inl (Or.inr h)
+        · exact Or.inr ⟨j, hj, h4, h5⟩
+  · intro S k _ hS
+    congr 1
+    apply any_congr'
+    intro j hj
+    have hj' := List.mem_range.mp hj
+    congr 1
+    · apply setMem_congr
+      apply hS
+      intro k' _ heq
+      simp only [Prod.mk.injEq] at heq
+      omega
+    · apply setMem_congr
+      apply hS
+      intro k' hk' heq
+      rw [mem_rangeFrom] at hk'
+      simp only [Prod.mk.injEq] at heq
+      omega
+
+/-- after `i` stages: the fill closure restricted to the elements with `min r c < i` -/
+def SymIPInv (n : Nat) (az : Nat → Nat → Bool) (i : Nat) (S : List Pair) : Prop :=
+  ∀ r c, (r, c) ∈ S ↔ (r < i ∨ c < i) ∧ r < n ∧ c < n ∧
+    (az r c = false ∨ r = c ∨ ∃ j, j < r ∧ j < c ∧ (r, j) ∈ S ∧ (j, c) ∈ S)
+
+theorem symIPInv_step (n : Nat) (az : Nat → Nat → Bool) (i : Nat) (S : List Pair)
+    (h : SymIPInv n az i S) : SymIPInv n az (i + 1) (symIPL n az i (symIPU n az i S)) := by
+  have h1 := mem_symIPU n az i S
+  generalize symIPU n az i S = S1 at h1
+  have h2 := mem_symIPL n az i S1
+  generalize symIPL n az i S1 = S2 at h2
+  have sub1 : ∀ r c, (r, c) ∈ S → (r, c) ∈ S1 := fun r c hm => (h1 r c).mpr (Or.inl hm)
+  have sub2 : ∀ r c, (r, c) ∈ S1 → (r, c) ∈ S2 := fun r c hm => (h2 r c).mpr (Or.inl hm)
+  have old : ∀ r c, (r < i ∨ c < i) → (r, c) ∈ S2 → (r, c) ∈ S := by
+    intro r c hlt hm
+    rcases (h2 r c).mp hm with g | g
+    · rcases (h1 r c).mp g with g' | g'
+      · exact g'
+      · omega
+    · omega
+  intro r c
+  constructor
+  · intro hm
+    rcases (h2 r c).mp hm with g | ⟨rfl, g1, g2, g3⟩
+    · rcases (h1 r c).mp g with g' | ⟨rfl, g1, g2, g3⟩
+      · obtain ⟨k1, k2, k3, k4⟩ := (h r c).mp g'
+        refine ⟨by omega, k2, k3, ?_⟩
+        rcases k4 with k | k | ⟨j, j1, j2, j3, j4⟩
+        · exact Or.inl k
+        · exact Or.inr (Or.inl k)
+        · exact Or.inr (Or.inr ⟨j, j1, j2, sub2 _ _ (sub1 _ _ j3), sub2 _ _ (sub1 _ _ j4)⟩)
+      · refine ⟨by omega, by omega, g2, ?_⟩
+        rcases g3 with k | k | ⟨j, j1, j3, j4⟩
+        · exact Or.inl k
+        · exact Or.inr (Or.inl k.symm)
+        · exact Or.inr (Or.inr ⟨j, j1, by omega, sub2 _ _ (sub1 _ _ j3), sub2 _ _ (sub1 _ _ j4)⟩)
+    · refine ⟨by omega, g2, by omega, ?_⟩
+      rcases g3 with k | k | ⟨j, j1, j3, j4⟩
+      · exact Or.inl k
+      · exact Or.inr (Or.inl k)
+      · exact Or.inr (Or.inr ⟨j, by omega, j1, sub2 _ _ j3, sub2 _ _ j4⟩)
+  · rintro ⟨g1, g2, g3, g4⟩
+    by_cases hold : r < i ∨ c < i
+    · apply sub2; apply sub1
+      refine (h r c).mpr ⟨hold, g2, g3, ?_⟩
+      rcases g4 with k | k | ⟨j, j1, j2, j3, j4⟩
+      · exact Or.inl k
+      · exact Or.inr (Or.inl k)
+      · exact Or.inr (Or.inr ⟨j, j1, j2, old _ _ (by omega) j3, old _ _ (by omega) j4⟩)
+    · by_cases hri : r = i
+      · subst hri
+        apply sub2
+        refine (h1 r c).mpr (Or.inr ⟨rfl, by omega, g3, ?_⟩)
+        rcases g4 with k | k | ⟨j, j1, j2, j3, j4⟩
+        · exact Or.inl k
+        · exact Or.inr (Or.inl k.symm)
+        · exact Or.inr (Or.inr ⟨j, j1, old _ _ (by omega) j3, old _ _ (by omega) j4⟩)
+      · have hci : c = i := by omega
+        subst hci
+        refine (h2 r c).mpr (Or.inr ⟨rfl, by omega, g2, ?_⟩)
+        rcases g4 with k | k | ⟨j, j1, j2, j3, j4⟩
+        · exact Or.inl k
+        · exact Or.inr (Or.inl k)
+        · exact Or.inr (Or.inr ⟨j, j2, sub1 _ _ (old _ _ (by omega) j3),
+            sub1 _ _ (old _ _ (by omega) j4)⟩)
+
+theorem doolittleInPlaceSymbolic_inv (n : Nat) (az : Nat → Nat → Bool) :
+    SymIPInv n az n (doolittleInPlaceSymbolic n az) := by
+  rw [doolittleInPlaceSymbolic_eq]
+  suffices ∀ m, SymIPInv n az m
+      ((List.range m).foldl (fun S i => symIPL n az i (symIPU n az i S)) []) from this n
+  intro m
+  induction m with
+  | zero => intro r c; simp
+  | succ m ih =>
+    rw [List.range_succ, List.foldl_append]
+    simp only [List.foldl_cons, List.foldl_nil]
+    exact symIPInv_step n az m _ ih
+
+/-- (H1)+(H2) for the in-place pattern computed by `doolittleInPlaceSymbolic` -/
+theorem IPSetup_of_symbolic (n : Nat) (az : Nat → Nat → Bool) (P : Pattern) (g : GoodPattern n P)
+    (hP : ∀ r c, r < n → c < n →
+      (P.zero? r c = false ↔ (r, c) ∈ doolittleInPlaceSymbolic n az)) : IPSetup n P := by
+  have hinv := doolittleInPlaceSymbolic_inv n az
+  refine ⟨g, ?_, ?_⟩
+  · intro i hi
+    exact (hP i i hi hi).mpr ((hinv i i).mpr ⟨Or.inl hi, hi, hi, Or.inr (Or.inl rfl)⟩)
+  · intro r c j hr hc hjr hjc h1 h2
+    exact (hP r c hr hc).mpr ((hinv r c).mpr ⟨Or.inl hr, hr, hc, Or.inr (Or.inr ⟨j, hjr, hjc,
+      (hP r j hr (by omega)).mp h1, (hP j c (by omega) hc).mp h2⟩)⟩)
+
+/-- the in-place pattern contains the support of the input pattern -/
+theorem doolittleInPlaceSymbolic_support (n : Nat) (az : Nat → Nat → Bool) (r c : Nat)
+    (hr : r < n) (hc : c < n) (h : az r c = false) : (r, c) ∈ doolittleInPlaceSymbolic n az :=
+  (doolittleInPlaceSymbolic_inv n az r c).mpr ⟨by omega, hr, hc, Or.inl h⟩
+
 end Micm
